@@ -31,6 +31,7 @@ var funcTargets = []struct{ file, name string }{
 	{"pkg/protocol/args.go", "decodeArgAppendNoPlus"},
 	{"pkg/protocol/uri_unix.go", "addLeadingSlash"},
 	{"pkg/app/fs.go", "ParseByteRange"},
+	{"pkg/protocol/http1/resp/response.go", "isInterim"},
 }
 
 // fuel of condition-only loops, per function (NOT trusted: running out of fuel is a distinct outcome that no
@@ -46,7 +47,8 @@ type fnSig struct {
 var (
 	fnSigs     = map[string]fnSig{}
 	fnTables   = map[string]int{}    // byte-string constants of bytesconv (name -> length)
-	fnConstStr = map[string]string{} // consts.HeaderXxx etc.
+	fnConstStr = map[string]string{}
+	fnConstInt = map[string]int64{} // integer constants of pkg/protocol/consts (status codes) // consts.HeaderXxx etc.
 )
 
 type bail struct{ reason string }
@@ -247,6 +249,11 @@ func (t *tr) typeOf(e ast.Expr, en *env) string {
 			return "bytes"
 		}
 	case *ast.SelectorExpr:
+		if pkgOf(x) == "consts" {
+			if _, ok := fnConstInt[x.Sel.Name]; ok {
+				return "int"
+			}
+		}
 		return "bytes" // bytestr.StrX, consts.HeaderX
 	case *ast.StarExpr:
 		return "byte"
@@ -454,6 +461,11 @@ func (t *tr) expr(e ast.Expr, want string, en *env, k func(term string) string) 
 			return k(s)
 		}
 	case *ast.SelectorExpr:
+		if pkgOf(x) == "consts" {
+			if v, ok := fnConstInt[x.Sel.Name]; ok {
+				return k(fmt.Sprintf("(%d : Int)", v))
+			}
+		}
 		if s, _, ok := t.constBytes(x, en); ok {
 			return k(s)
 		}
@@ -1472,6 +1484,14 @@ func genFuncs() {
 		_, f := parseFile(rel)
 		for k, v := range constStrings(f) {
 			fnConstStr[k] = v
+		}
+	}
+	{
+		_, sf := parseFile("pkg/protocol/consts/status.go")
+		for k, v := range intConsts(sf) {
+			if strings.HasPrefix(k, "Status") {
+				fnConstInt[k] = v
+			}
 		}
 	}
 	// `maxInt` is translated to Go.maxInt = 2^63-1 only while its defining expression is the known one
